@@ -34,6 +34,11 @@ thread_local! {
     static C: RefCell<Option<CW>> = const { RefCell::new(None) };
 }
 
+/// Fresh world (serial numbers, diesel check set) for harnesses in other modules.
+pub(crate) fn reset_world(on: bool) {
+    C.with(|x| *x.borrow_mut() = if on { Some(CW::default()) } else { None });
+}
+
 fn c<R>(f: impl FnOnce(&mut CW) -> R) -> R {
     C.with(|x| f(x.borrow_mut().as_mut().expect("c15 world")))
 }
@@ -148,6 +153,7 @@ impl r2d2::ManageConnection for RM {
         Ok(RConn { serial: new_serial(), broken: false, invalid: false })
     }
     fn is_valid(&self, conn: &mut RConn) -> Result<(), RErr> {
+        crate::c15c::note_check(conn.serial);
         if conn.invalid {
             Err(RErr)
         } else {
@@ -155,6 +161,7 @@ impl r2d2::ManageConnection for RM {
         }
     }
     fn has_broken(&self, conn: &mut RConn) -> bool {
+        crate::c15c::note_check(conn.serial);
         conn.broken
     }
 }
@@ -212,6 +219,7 @@ impl Backend for DieselSqlite {
             2 => RecyclingMethod::CustomQuery("SELECT 1 FROM ok_marker".into()),
             _ => RecyclingMethod::CustomFunction(Box::new(|conn: &mut diesel::SqliteConnection| {
                 let s = diesel_serial(conn).unwrap_or(-1);
+                crate::c15c::note_check(s);
                 if c(|w| w.fail_check.contains(&s)) {
                     Err(deadpool_diesel::Error::Ping(diesel::result::Error::NotFound))
                 } else {
